@@ -106,9 +106,9 @@ C("cross : vec_t<T, 3> (const vec_t<T, 3, A> &, const vec_t<T, 3, B> &)" + TAB, 
 C("normalize : vec_t<T, N, A> (const vec_t<T, N, A> &)" + TNA, rows=[r"^normalize__v[234]a?[fd]$"], oracle=["^floatfun/"])
 C("safe_normalize : vec_t<T, N, A> (const vec_t<T, N, A> &)" + TNA, rows=[r"^safe_normalize__v[234]a?[fd]$"], oracle=["^floatfun/"])
 C("interpolate_uv : vec_t<T, N, A> (const vec_t<T, 3> &, const vec_t<T, N, A> &, const vec_t<T, N, A> &, const vec_t<T, N, A> &)" + TNA, rows=[r"^interpolate_uv__v3[fd]_"], oracle=["^interpolate_uv/"])
-C("operator<< : std::ostream &(std::ostream &, const vec_t<T, 2> &)" + T1, oracle=["^access/.*x2$"])
-C("operator<< : std::ostream &(std::ostream &, const vec_t<T, 3, A> &)" + TA, oracle=["^access/.*x3a?$", "^padded/"])
-C("operator<< : std::ostream &(std::ostream &, const vec_t<T, 4> &)" + T1, oracle=["^access/.*x4$"])
+C("operator<< : std::ostream &(std::ostream &, const vec_t<T, 2> &)" + T1, oracle=["^access/.*x2$", "^stream/.*x2$"])
+C("operator<< : std::ostream &(std::ostream &, const vec_t<T, 3, A> &)" + TA, oracle=["^access/.*x3a?$", "^padded/", "^stream/.*x3a?$"])
+C("operator<< : std::ostream &(std::ostream &, const vec_t<T, 4> &)" + T1, oracle=["^access/.*x4$", "^stream/.*x4$"])
 
 # ---- binary functors (macro define_functor x3), reductions, arg_max
 for fn in ("min", "max", "divRoundUp"):
